@@ -92,6 +92,9 @@ Definition set_c_cid (c : column) (x : Z) : column := c.
 Definition set_c_dflt (c : column) (x : option Z) : column := c.
 Definition get_c_cid (c : column) : Z := 0.
 Definition get_c_dflt (c : column) : option Z := None.
+(** [dfltValue *string] (fix de070c1, F17): still written by Scan only *)
+Definition set_c_dflt_s (c : column) (x : option string) : column := c.
+Definition get_c_dflt_s (c : column) : option string := None.
 
 (** gpkg.GeometryType (library constants) and the names GeometryType.String() writes into gpkg_geometry_columns *)
 Definition gt_Geometry : N := 0.
@@ -370,6 +373,17 @@ Definition op_ScanTableInfo (r : option tirow) (cur : Z * string * string * bool
       | DfInt z => ((cid, n, ty, nn, Some z, pk), None)
       | DfText => (cur, Some (Stop "sql: Scan error on column dflt_value: converting a string to int"))
       end
+  | None => (cur, no_row)
+  end.
+
+(** dflt_value into a *string (fix de070c1, F17): database/sql converts NULL to nil and every other driver value
+    (an integer, a real, a text) to its text, so the scan succeeds whatever the default is.  The text itself is not
+    represented ([Some ""] for a non-NULL default): nothing reads the field (checked by the translator). *)
+Definition op_ScanTableInfoS (r : option tirow) (cur : Z * string * string * bool * option string * N)
+  : (Z * string * string * bool * option string * N) * goerr :=
+  match r with
+  | Some (cid, n, ty, nn, df, pk) =>
+      ((cid, n, ty, nn, match df with DfNull => None | _ => Some EmptyString end, pk), None)
   | None => (cur, no_row)
   end.
 
